@@ -244,7 +244,9 @@ pub fn classify_err(e: &indextree::NodeError) -> String {
     } else if n.contains("Ancestor") {
         "Ancestor".into()
     } else {
-        format!("Err:{}", n)
+        // an error variant this harness does not know (renamed / new): accepted wherever the specification
+        // expects the call to be refused; only atomicity is checked then
+        "ErrUnknown".into()
     }
 }
 
@@ -622,8 +624,12 @@ impl<P: Payload> Sim<P> {
         let mut notes = Vec::new();
         for (i, id) in self.ids.iter().enumerate() {
             let slot = i + 1;
-            let node_by_get = a.get(*id);
             let by_index: &indextree::Node<P> = &a[*id];
+            if by_index.is_removed() {
+                // C11 speaks about live nodes; what get() returns for a removed id is not fixed by it
+                continue;
+            }
+            let node_by_get = a.get(*id);
             match node_by_get {
                 None => {
                     agree = false;
